@@ -10,6 +10,8 @@ Model of chibicc's calling-convention code (property C06), written arm by arm af
 * `prologueStores`— the store loop of `emit_text` (`store_gp`/`store_fp` of register parameters)
 * `calleeAssign`  — where the callee reads each named parameter from
 * `retCallee` / `retCaller` — `ND_RETURN` (`copy_struct_reg`, `copy_struct_mem`) / `copy_ret_buffer` and the scalar cases
+* `RetOp`, `copyStructRegOps`, `copyRetBufferOps` — the loads / stores of `copy_struct_reg` / `copy_ret_buffer`, structured (which bytes
+                    of the object each touches); the text functions `copyStructRegLines` / `copyRetBufferLines` are their rendering
 * `vaInit`, `vaArg` — the `va_area` set-up of the prologue and the three walkers of include/stdarg.h
 
 C `int` counters are `Nat` (they only count up from 0; sizes are those of C objects, < 2^31).
